@@ -19,6 +19,8 @@ type Options struct {
 	MaxBound int  // preemption bounds 0..MaxBound are completed in turn; <0 = no bound (single pass)
 	Cache    bool // happens-before state caching
 	Stop     func() bool
+	// StopEvery: how often (in executions) Stop is polled; 0 = every 256.
+	StopEvery int64
 	MaxSteps int
 	Delay    bool // delay bounding instead of preemption bounding (see RunConfig.Delay)
 }
@@ -54,7 +56,11 @@ func Explore(opt Options, body func(s *Sched), check func(x *Exec) bool) Stats {
 		}
 		stack := [][]int{nil}
 		for len(stack) > 0 {
-			if opt.Stop != nil && st.Executions%256 == 0 && opt.Stop() {
+			every := opt.StopEvery
+			if every <= 0 {
+				every = 256
+			}
+			if opt.Stop != nil && st.Executions%every == 0 && opt.Stop() {
 				st.Capped = true
 				return st
 			}
